@@ -14,16 +14,16 @@ def idp_metadata(keys=(('signing', 1),), entityid=IDP, extra_entities=()):
     return build.entities_xml(ents)
 
 
-def sp_for(opts=None, md=None, cache_key=None):
+def sp_for(opts=None, md=None, cache_key=None, config_class='sp'):
     """opts: dict of SP options merged over world.DEFAULT_SP"""
     world.install_inprocess_tool()
     clock.install()
     opts = opts or {}
-    key = cache_key or repr(sorted((k, repr(v)) for k, v in opts.items())) + (md or '')
+    key = (cache_key or repr(sorted((k, repr(v)) for k, v in opts.items())) + (md or '')) + '|' + config_class
     if key not in _sps:
         spec = dict(world.DEFAULT_SP)
         spec.update(opts)
-        _sps[key] = world.make_sp(world.sp_conf(spec, [md or idp_metadata()]))
+        _sps[key] = world.make_sp(world.sp_conf(spec, [md or idp_metadata()]), config_class)
         clock.install()
     return _sps[key]
 
